@@ -177,7 +177,11 @@ int cmd_args(const case_t *c)
     int p2 = (v2 >= 0) ? apply(rt, v2, &F, s1, s2, s3, &incx, &incy, &equed, &tr, &nprocs, &l2) : 0;
     if (p1 == 0 || (v2 >= 0 && p2 == 0)) { jo_str("error", "no such violation"); jo_end(); F.A = A0; F.B = B0; F.X = X0; F.L = L0; F.U = U0; fix_free(&F); return 0; }
     int want = (p2 && p2 < p1) ? p2 : p1;
-    char lab[96]; snprintf(lab, sizeof lab, "%s%s%s", l1, v2 >= 0 ? "+" : "", l2);
+    /* the illegal call is additionally degenerate in a LEGAL way (no right-hand sides): argument tests come first, so the
+       answer must not change (a quick return placed ahead of the tests would swallow the violation) */
+    int nrhs0 = cint(c, "nrhs0", 0) && F.B.ncol > 0 && F.X.ncol > 0 && !strstr(l1, "ncol") && !strstr(l2, "ncol");   /* not for violations that are about ncol themselves */
+    if (nrhs0) { F.B.ncol = 0; F.X.ncol = 0; }
+    char lab[96]; snprintf(lab, sizeof lab, "%s%s%s%s", l1, v2 >= 0 ? "+" : "", l2, nrhs0 ? "+nrhs=0" : "");
     jo_str("violation", lab); jo_int("want", -want);
 
     uint64_t h0 = fix_hash(&F);
